@@ -142,6 +142,8 @@ pub struct Core {
     /// commands whose outputs read the machine (time, pid, host...) : logged as a length class
     pub redact: HashSet<String>,
     /// called (with no borrow held) at every decorated invocation and stream write
+    /// no events are recorded (very long runs); counters, depth tracking, hooks and the observer still work
+    pub quiet: bool,
     pub yield_hook: Option<fn()>,
     /// consulted before the observer: may answer instead of the real command (workload-level fault plan)
     pub pre_hook: Option<fn(&mut Core, &StartInfo) -> Option<CommandResult>>,
@@ -170,6 +172,7 @@ impl Core {
             wrapped: HashSet::new(),
             registry_len: 0,
             redact: HashSet::new(),
+            quiet: false,
             yield_hook: None,
             pre_hook: None,
             nested_in_current: 0,
@@ -361,16 +364,18 @@ impl Command for Wrapped {
                 (None, None)
             };
             let seq = core.next_seq();
-            core.log.push(Event::Start {
-                seq,
-                depth,
-                cmd: name.clone(),
-                args: arguments.clone(),
-                line,
-                src_line,
-                out: output_variable.clone(),
-                handler,
-            });
+            if !core.quiet {
+                core.log.push(Event::Start {
+                    seq,
+                    depth,
+                    cmd: name.clone(),
+                    args: arguments.clone(),
+                    line,
+                    src_line,
+                    out: output_variable.clone(),
+                    handler,
+                });
+            }
             let over = core.steps > core.budget;
             if over {
                 core.budget_hit = true;
@@ -460,12 +465,14 @@ impl Command for Wrapped {
             } else {
                 result_out(&result)
             };
-            core.log.push(Event::End {
-                seq,
-                depth: info.depth,
-                res: result_kind(&result).to_string(),
-                out,
-            });
+            if !core.quiet {
+                core.log.push(Event::End {
+                    seq,
+                    depth: info.depth,
+                    res: result_kind(&result).to_string(),
+                    out,
+                });
+            }
             commands.commands.len() != core.registry_len
         });
         if need_wrap {
